@@ -3,7 +3,7 @@
 # Never fails because of a broken proof file: `make -k` builds what it can; each check then
 # requires the .vo files of its own property.
 HERE="$(cd "$(dirname "$0")" && pwd)"
-export PYTHONPATH=/repo PYTHONHASHSEED=0
+export PYTHONPATH=${VERIF_REPO:-/repo} PYTHONHASHSEED=0
 PY=/venv/bin/python
 mkdir -p "$HERE/coq/Gen" "$HERE/work"
 (
